@@ -98,7 +98,12 @@ def problem_dump(problem):
     }
 
 
-def parse_problem_text(domain, text):
+def parse_problem_text(domain, text, path=None):
+    """path given: the text is written over whatever that file held before, and the file is kept"""
+    if path is not None:
+        with open(path, "w", newline="") as fh:
+            fh.write(text)
+        return ProblemParser(path, domain).parse_problem()
     ppath = write_tmp(text)
     try:
         return ProblemParser(ppath, domain).parse_problem()
@@ -131,13 +136,14 @@ def world(job):
         # a freshly parsed domain whose functions already carry repeated arguments: left behind by an earlier parse
         out["domain_changed"] = {"after_problem_index": -1, "before": "a freshly parsed Domain", "after": presented}
     res = []
+    same = write_tmp("", suffix=".same.pddl") if job.get("same_path") else None      # one path for all problems of the job
     for pr in job["problems"]:
         text = Path(pr["path"]).read_text() if isinstance(pr, dict) else pr
         r = {"nums": number_table(text)}
         if isinstance(pr, dict):
             r["text"] = text
         try:
-            r["dump"] = problem_dump(parse_problem_text(domain, text))
+            r["dump"] = problem_dump(parse_problem_text(domain, text, same))
         except RecursionError as e:
             r.update(exc(e))
         except Exception as e:  # noqa
@@ -147,6 +153,8 @@ def world(job):
             out["domain_changed"] = {"after_problem_index": len(res), "before": presented, "after": now}
         res.append(r)
     out["results"] = res
+    if same is not None:
+        same.unlink()
     return out
 
 
